@@ -45,12 +45,19 @@ def retains_in_force(A, cls):
     b_, g = A.graph(cls, "_flush_buffer", "root", "none", recv=Val("cls", (cls,)), args=[Val("const", True)])
     lv = live(g)
     heads = [n.id for n in lv if n.kind == "join" and n["what"] == "loop-head" and own(n)]
-    pops = [n for n in lv if n.kind == "cs_write" and n["name"] == "_buffered_collections" and n["op"].startswith("call:pop")]
     calls = [n for n in lv if is_enter(n, "_flush") and own_child(n)]
-    stores = [n.id for n in lv if n.kind == "local_mut" and n["op"] == "setitem" and own(n)
-              and any(x.kind == "call" and x.args[0] in ("popitem", "pop") for x in n["value"].walk())]
-    # every collection taken out of the registry is stored among the retained ones before the loop takes the next one
-    retained = bool(pops) and bool(calls) and bool(heads) and bool(stores) and all(g.must_pass(y, heads + [g.exit], stores) is None for p_ in pops for (y, l_) in g.succ[p_.id] if l_ != "e")
+    # every collection flushed by force is stored among the retained ones in the same iteration (before or after
+    # the flush): no cycle  loop head -> _flush(c) -> loop head  without a store of that same c
+    retained = bool(calls) and bool(heads)
+    for c_ in calls:
+        # the flushed collection is a member taken from the registry (abstract instance of another tree, 'O'); a
+        # matching store puts a value taken from the registry into a local mapping
+        stores = [n.id for n in lv if n.kind == "local_mut" and n["op"] == "setitem" and own(n) and n["value"] is not None
+                  and (n["value"] == c_["recv"] or any(x.kind == "cattr" and x.args[1] == "_buffered_collections" for x in n["value"].walk()))]
+        before = all(g.path(h, [c_.id], avoid=stores) is None for h in heads) if stores else False
+        after = g.path(c_.id, heads + [g.exit], avoid=stores) is None if stores else False
+        if not (before or after):
+            retained = False
     removes = [n for n in lv if n.kind == "cs_write" and n["name"] == "_buffer" and (n["op"] == "delitem" or n["op"] in ("call:pop", "call:popitem", "call:clear") or n["op"] == "rebind")]
     res = retained and not removes
     A.cache[key] = res
